@@ -121,7 +121,7 @@ class C07Stream(R.ScenarioStream):
     name = "timeline"
     coq_header = R.C07_HEADER
     n_quick = 800
-    n_thorough = 8000
+    n_thorough = 15000
 
     def gen(self, rng, tier):
         yield from R.c07_boundary_cases()
@@ -186,6 +186,9 @@ class C07Stream(R.ScenarioStream):
 def streams():
     return [C07Stream(), ActorStream()]
 
+
+TRUSTED = ["async_solipsism 0.7 virtual event loop (integer-microsecond clock) + time_machine slaved to it",
+           "the scenario driver of tools/harness/resampler.py (scripted sources/sinks, blocked-loop injection, log -> trace)"]
 
 ASSUMPTIONS = [
     "frequenz.channels Timer(period, TriggerAllMissed) yields exactly one tick per elapsed period, late ticks in a burst, "
